@@ -552,6 +552,28 @@ def run(ctx):
             chk.unrecognised("R01.7", "append", "append_after_iter does not store new ++ old or old ++ new: %s" % seqs[:3], loc(aa[0]["span"]))
     else:
         chk.violation("R01.7", "anchor:append", "UnaryOp::append_after_iter not found")
+    # append_after(other): the functions of `other` go in front of the own ones, each group in its own order
+    ab = fb.find_bodies(lambda b: b["kind"] == "AssocFn" and b.get("name") == "append_after" and (b.get("impl_self_ty") or "").startswith("operators::UnaryOp<"))
+    if len(ab) == 1:
+        allp = Interp(fb, PSeq()).run(ab[0], [Sym("self_"), Sym("other")])
+        okb = True
+        nret = 0
+        for p in allp:
+            if p.status in ("unreachable", "loop-pruned"):
+                continue
+            hv = [v for k, v in p.heap.items() if k[0] == ("sym", "self_") and k[1] == ("f", "funcs_to_be_composed")]
+            if p.status != "return" or len(hv) != 1:
+                okb = False
+                continue
+            nret += 1
+            parts = loops.seq_parts(hv[0], p, ab[0]["path"], 0, allp)
+            OTHER = ("src", ".funcs_to_be_composed(other)", "fwd")
+            if parts not in ([OTHER, ("src", STORE, "fwd")], [OTHER]):       # [OTHER] alone only on a path where the own list is known to be empty
+                okb = False
+            elif parts == [OTHER] and not any("is_empty" in show(d[1]) and d[2] is True for d in p.decisions):
+                okb = False
+        if not okb or not nret:
+            chk.violation("R01.7", "append_after", "UnaryOp::append_after does not store `other's functions ++ own functions`, each in its own order (composed unary operators would be applied in another order)", loc(ab[0]["span"]))
     # constructors keep the order they are given (the producers yield outermost first)
     for cname in ("from_iter", "from_vec"):
         cs = fb.find_bodies(lambda b, cname=cname: b["kind"] == "AssocFn" and b.get("name") == cname and (b.get("impl_self_ty") or "").startswith("operators::UnaryOp<"))
@@ -568,6 +590,34 @@ def run(ctx):
         bits["%s keeps the given order" % cname] = okc
         if not okc:
             chk.violation("R01.7", "constructor:%s" % cname, "UnaryOp::%s does not store the functions in the order it is given (the parsers hand them over outermost first, the order apply / append_after / the printer assume)" % cname, loc(cs[0]["span"]))
+    # the producer in the flat builder: a node preceded by unary operators gets them in the order the scan yields them
+    mk_ = [p_ for p_ in fb.bodies if p_.endswith("flat::detail::make_expression")]
+    nprod = 0
+    for mkp in mk_:
+        for cp_ in fb.closures_of(mkp):
+            cb_ = fb.bodies[cp_]
+            if "flat::detail::FlatNode<" not in cb_["locals"][0]["ty"] or not cb_["locals"][0]["ty"].startswith("std::result::Result<"):
+                continue
+
+            class PProd(PSeq):
+                def inline(self, fn, args, interp, path):
+                    st_ = fn.get("impl_self_ty") or ""
+                    return st_.startswith("operators::UnaryOp<") and fn.get("name") != "apply" or st_.startswith("expression::flat::detail::FlatNode<")
+            allp = Interp(fb, PProd()).run(cb_, [Sym("env")] + [Sym("a%d" % i) for i in range(1, cb_["arg_count"])])
+            for p in allp:
+                if p.status != "return" or not (isinstance(p.result, Variant) and p.result.variant == "Ok"):
+                    continue
+                nd_ = p.result.fields.get("0")
+                u_ = nd_.fields.get("unary_op") if isinstance(nd_, Variant) else None
+                f_ = u_.fields.get("funcs_to_be_composed") if isinstance(u_, Variant) else u_
+                parts = loops.seq_parts(f_, p, cp_, 0, allp) if f_ is not None else [("?", "node")]
+                nprod += 1
+                if parts == [] or (len(parts) == 1 and parts[0][0] == "src" and parts[0][2] == "fwd"):
+                    continue
+                chk.violation("R01.7", "producer:flat", "the flat builder does not hand a node the unary operators in front of it in the order the scan yields them (outermost first): %s" % str(parts)[:160], loc(cb_["span"]))
+                break
+    if nprod:
+        chk.ok("R01.7", "flat builder: unary chain of a node in scan order", "%d paths" % nprod, loc(fb.bodies[mk_[0]]["span"]))
     up = fb.find_bodies(lambda b: b["path"].endswith("deep::detail::unparse_raw"))
     if len(up) == 1:
         tys = " ".join(l["ty"] for l in up[0]["locals"])
